@@ -292,6 +292,9 @@ pub struct World {
     /// nodes whose control traffic (everything not caused by an interface read: announcements, keepalives, rotation
     /// and handshake messages) is lost on the way out while their payload still gets through
     pub control_lost: BTreeSet<usize>,
+    /// handshake messages of the given stage (1 ping, 2 pong, 3 peng) sent by the given node are lost until the
+    /// given time (a targeted loss of one message kind)
+    pub drop_stage: Option<(usize, u8, u64)>,
     /// node id of every incarnation -> the peer timeout it was configured with (and therefore advertises)
     pub advertised_timeout: BTreeMap<[u8; 16], u16>,
     /// node behind a translating NAT with a port forward: everybody else sees (and reaches) it as this address
@@ -359,6 +362,7 @@ impl World {
             alias_src: BTreeMap::new(),
             second_addr: BTreeMap::new(),
             control_lost: BTreeSet::new(),
+            drop_stage: None,
             advertised_timeout: BTreeMap::new(),
             public_addr: BTreeMap::new(),
             wire: vec![],
@@ -891,6 +895,17 @@ impl World {
         if self.nodes[n].cfg.nat {
             let exp = self.now_ms + 300_000;
             self.nodes[n].nat_table.insert(dst, exp);
+        }
+        if let Some((from, stage, until)) = self.drop_stage {
+            if from == n && self.now_ms < until && Self::is_init_datagram(&self.wire[id].data) {
+                let d = self.wire[id].data.clone();
+                let st = super::refmodel::handshake_layout(&d).and_then(|l| l.parts.iter().find(|p| p.0 == 1 && p.3 >= 1).map(|p| d[p.2]));
+                if st == Some(stage) {
+                    self.wire[id].dropped = Some("stage-lost");
+                    self.count("fault_handshake_stage_lost");
+                    return id;
+                }
+            }
         }
         if self.control_lost.contains(&n) && !matches!(cause, Cause::Dev(_)) {
             self.wire[id].dropped = Some("control-lost");
